@@ -347,6 +347,49 @@ def sepB (m : Model) (τ : Rat) : Bool :=
 def simplexB (n : Nat) (b : Vec) : Bool :=
   allLt n (fun s => decide (0 ≤ b.get s)) && decide (sumTo n b.get = 1)
 
+/-! ## the linear system `findVerticesNaive` assembles for one plane against one subset of planes and simplex boundaries
+  (include/AIToolbox/Utils/Polytope.hpp).  Only the system is modelled (rows and their meaning), not the QR solve. -/
+
+/-- one element of the subset `findVerticesNaive` enumerates: a plane, or the simplex boundary `x_d = 0` -/
+inductive FvnElem where
+  | plane (α : Vec)
+  | boundary (d : Nat)
+
+/-- a linear equation `coef·x + cv·v = rhs` over the unknowns (x, v) -/
+structure FvnRow where
+  coef : Vec
+  cv : Rat
+  rhs : Rat
+
+def FvnRow.holds (S : Nat) (r : FvnRow) (x : Vec) (v : Rat) : Bool := decide (dot S r.coef x + r.cv * v = r.rhs)
+
+def fvnPlaneRows : List FvnElem → List FvnRow
+  | [] => []
+  | .plane α :: r => ⟨α, -1, 0⟩ :: fvnPlaneRows r
+  | .boundary _ :: r => fvnPlaneRows r
+
+def fvnBoundaryRows (S : Nat) : List FvnElem → List FvnRow
+  | [] => []
+  | .plane _ :: r => fvnBoundaryRows S r
+  | .boundary d :: r => ⟨mkVec S (fun s => if s = d then 1 else 0), 0, 0⟩ :: fvnBoundaryRows S r
+
+def fvnLimited : List FvnElem → Nat → Bool
+  | [], _ => false
+  | .plane _ :: r, s => fvnLimited r s
+  | .boundary d :: r, s => d == s || fvnLimited r s
+
+/-- the system solved for the plane `new` against the subset `sub`.
+    `rowsForm = false` (as shipped): the boundaries are merged into ONE row "sum of the non-limited coordinates = 1";
+    `rowsForm = true` (repaired): one row `x_d = 0` per boundary and the row "sum of all coordinates = 1". -/
+def fvnRows (rowsForm : Bool) (S : Nat) (new : Vec) (sub : List FvnElem) : List FvnRow :=
+  if rowsForm then
+    ⟨new, -1, 0⟩ :: (fvnPlaneRows sub ++ fvnBoundaryRows S sub ++ [⟨mkVec S (fun _ => 1), 0, 1⟩])
+  else
+    ⟨new, -1, 0⟩ :: (fvnPlaneRows sub ++ [⟨mkVec S (fun s => if fvnLimited sub s then 0 else 1), 0, 1⟩])
+
+def fvnSolves (rowsForm : Bool) (S : Nat) (new : Vec) (sub : List FvnElem) (x : Vec) (v : Rat) : Bool :=
+  (fvnRows rowsForm S new sub).all (fun r => r.holds S x v)
+
 /-! ## L3 checker for clause (i): every returned vector is a genuine backup of the previous returned list -/
 
 /-- equal on the first n entries (the only ones a dot product over n states reads) -/
